@@ -27,6 +27,8 @@ fn main() {
         "magic-sweep" => special::magic_sweep(&kv),
         "tables" => special::dump_tables(),
         "scen" => scen::run(&kv),
+        // child mode of the `pvp` operation: the real player-vs-player loop on this process's stdin/stdout
+        "pvpchild" => chess::game::player_vs_player::player_vs_player(),
         "replay" => scen::replay(&kv),
         "search" => special::search_cmd(&kv),
         "sched" => special::sched_cmd(&kv),
